@@ -17,11 +17,25 @@ class Site:
 
 
 class Unit:
-    def __init__(self, roles, fn_key):
+    def __init__(self, roles, fn_key, extended=False, stop=()):
+        """extended: also the crate's helper functions reachable from the unit without going
+        through the interpreter (parser/evaluators) or through the keys in `stop`."""
         self.roles = roles
         self.facts = roles.facts
         self.root = self.facts.body(fn_key)
         self.bodies = roles.unit(fn_key)
+        if extended:
+            cg, _ = self.facts.callgraph()
+            halt = set(roles.sinks) | set(roles.evaluators) | set(stop)
+            seen = set()
+            st = [fn_key]
+            while st:
+                k = st.pop()
+                if k in seen or k in halt:
+                    continue
+                seen.add(k)
+                st.extend(cg.get(k, ()))
+            self.bodies = [self.facts.body(k) for k in sorted(seen) if self.facts.body(k) is not None and self.facts.body(k).kind in ("fn", "closure")]
         self.keys = {b.key for b in self.bodies}
 
     def calls(self, pred=None):
